@@ -21,6 +21,20 @@ import RtVerif.Lemmas.C06
   * `gate_ignores_method`, `gate_depends_only_on_parsed_type`
   * `spec_functional`                          the Spec pins the outcome (non-vacuity of the Spec)
   * `holds_outside_known`                      the shape DESIGN §2.2 asks for (`Known` is empty)
+
+  The WHOLE functions (`typedFull` = `Context.BindValidRequest`: gate, response-format check, binder;
+  `untypedFull` = `validateRequest`/`BindAndValidate`), for every parsed Accept header, produces
+  list and binder (nil / succeeding / failing):
+
+  * `typedFull_meets_spec`, `untypedFull_meets_spec`, `typedFull_meets_spec_route`
+                                               both meet `SpecFull` (C06 gate + C07's 406 statement)
+  * `full_entry_points_agree`                  same answer of the checks, same gate, same activity
+  * `binder_runs_iff`                          the binder runs iff there is one and no check failed
+  * `e406_iff`, `e406_iff_admits_none`         406 iff gate passed, types declared, none admitted
+  * `typed_answer_shape`, `untyped_406_stands_alone`   error order: one error, 406 never beside another
+  * `binder_error_as_is`, `failing_binder_answer`      the binder's error is returned unchanged
+  * `old_tail_passes_in_class`, `old_tail_same_outside_class`, `tRct_ne_nil_iff`
+                                               F06b: exactly where the unrepaired tail differed
 -/
 namespace RtVerif.C06
 open RtVerif Bytes
@@ -294,6 +308,371 @@ example : gateUntyped tablePmt exWildApi exReq = .e500NoConsumer ∧
 -- the Spec is not vacuous: it rejects every other outcome on that request but the registered consumer
 example : Spec tablePmt exWildApi exReq .e415 = false ∧ Spec tablePmt exWildApi exReq .skipped = false ∧
     Spec tablePmt exWildApi exReq (.consumer 0) = false ∧ Spec tablePmt exApi exReq .e500NoConsumer = false := by
+  decide
+
+
+/-! ## the whole functions: gate, response-format check, binder -/
+
+/-- The whole of `Context.BindValidRequest` meets the Spec: for every API, request head, parsed
+Accept header, produces list `t.produces` holding the declared types (as a set, no empty entry) and
+every binder (nil, succeeding, failing). -/
+theorem typedFull_meets_spec {pmt : Pmt} (hp : PmtOK pmt) {api : Api} (hwf : WF api = true) (h : ReqHead)
+    (t : TailIn) (declared : List Bytes) (hmem : ∀ x, x ∈ t.produces ↔ x ∈ declared)
+    (hnn : ([] : Bytes) ∉ t.produces) :
+    SpecFull pmt api h t.specs declared t.binder (obsOfFull (typedFull pmt api h t)) = true := by
+  have hs := typed_meets_spec hp hwf h
+  have htp := tailPass_eq_admits t declared hmem hnn
+  rcases typedFull_obs pmt api h t with ⟨hc, hg, ho⟩ | ⟨_, k, hg, ho⟩ | ⟨_, e, hg, ho⟩
+  · rw [ho]; rw [hg] at hs
+    exact specFull_tailObs pmt api h t declared t.binder none .skipped
+      (gateSeen_tailObs_none h t t.binder hc) rfl (Or.inl rfl) hs htp
+  · rw [ho]; rw [hg] at hs
+    exact specFull_tailObs pmt api h t declared t.binder (some k) (.consumer k)
+      (gateSeen_tailObs_some h t t.binder k) rfl (Or.inr ⟨k, rfl⟩) hs htp
+  · rw [ho]; rw [hg] at hs
+    unfold SpecFull
+    rw [gateSeen_refused h e [] none, hs]
+    cases e <;> rfl
+
+/-- The whole of `validateRequest` / `Context.BindAndValidate` meets the Spec (its binder is the
+route's own parameter binder: it is always there and, on these routes, succeeds). -/
+theorem untypedFull_meets_spec {pmt : Pmt} (hp : PmtOK pmt) {api : Api} (hwf : WF api = true) (h : ReqHead)
+    (t : TailIn) (declared : List Bytes) (hmem : ∀ x, x ∈ t.produces ↔ x ∈ declared)
+    (hnn : ([] : Bytes) ∉ t.produces) :
+    SpecFull pmt api h t.specs declared (some .ok) (obsOfFull (untypedFull pmt api h t)) = true := by
+  have hs := untyped_meets_spec hp hwf h
+  have htp := tailPass_eq_admits t declared hmem hnn
+  rcases untypedFull_obs pmt api h t hp.nonempty with ⟨hc, hg, ho⟩ | ⟨_, k, hg, ho⟩ | ⟨_, e, es, sel, hg, ho⟩
+  · rw [ho]; rw [hg] at hs
+    exact specFull_tailObs pmt api h t declared (some .ok) none .skipped
+      (gateSeen_tailObs_none h t _ hc) rfl (Or.inl rfl) hs htp
+  · rw [ho]; rw [hg] at hs
+    exact specFull_tailObs pmt api h t declared (some .ok) (some k) (.consumer k)
+      (gateSeen_tailObs_some h t _ k) rfl (Or.inr ⟨k, rfl⟩) hs htp
+  · rw [ho]; rw [hg] at hs
+    unfold SpecFull
+    rw [gateSeen_refused h e _ sel, hs]
+    cases e <;> rfl
+
+/-- The same for the configuration itself: `route.Produces` as the router builds it from an
+operation's produces list and the API's default type (lower case, no empty entry), judged against
+"its produces list plus the API's default type". -/
+theorem typedFull_meets_spec_route {pmt : Pmt} (hp : PmtOK pmt) {api : Api} (hwf : WF api = true) (h : ReqHead)
+    (specs : List C07.Spec) (opProduces : List Bytes) (dprod : Bytes) (hwfp : WFp opProduces dprod = true)
+    (b : Option BinderRes) :
+    SpecFull pmt api h specs (declaredTypes opProduces dprod) b
+      (obsOfFull (typedFull pmt api h ⟨specs, routeProduces opProduces dprod, b⟩)) = true :=
+  typedFull_meets_spec hp hwf h ⟨specs, routeProduces opProduces dprod, b⟩ _
+    (routeProduces_mem hwfp) (routeProduces_no_empty hwfp)
+
+/-- The two entry points agree on the whole function: the checks give the same answer (same refusal
+code or none) whatever binder is handed in, the gate is seen alike, and with a succeeding binder the
+same binder/consumer activity follows. (Only the parser's non-empty result is needed.) -/
+theorem full_entry_points_agree {pmt : Pmt} (hne : ∀ x t, pmt x = some t → t ≠ []) (api : Api) (h : ReqHead)
+    (t : TailIn) :
+    checksVerdict (obsOfFull (typedFull pmt api h t)) = checksVerdict (obsOfFull (untypedFull pmt api h t)) ∧
+    gateSeen h (obsOfFull (typedFull pmt api h t)) = gateSeen h (obsOfFull (untypedFull pmt api h t)) ∧
+    (t.binder = some .ok →
+      (obsOfFull (typedFull pmt api h t)).binderRan = (obsOfFull (untypedFull pmt api h t)).binderRan ∧
+      (obsOfFull (typedFull pmt api h t)).decoded = (obsOfFull (untypedFull pmt api h t)).decoded ∧
+      ((obsOfFull (typedFull pmt api h t)).codes = [] ↔ (obsOfFull (untypedFull pmt api h t)).codes = [])) := by
+  have hgg := typed_eq_untyped hne api h
+  rcases typedFull_obs pmt api h t with ⟨hc, hg, ho⟩ | ⟨hc, k, hg, ho⟩ | ⟨hc, e, hg, ho⟩ <;>
+    rcases untypedFull_obs pmt api h t hne with ⟨hc', hg', ho'⟩ | ⟨hc', k', hg', ho'⟩ | ⟨hc', e', es', sel', hg', ho'⟩ <;>
+    (try (rw [hc] at hc'; cases hc')) <;>
+    (rw [hg, hg'] at hgg) <;> (try (cases e <;> cases hgg)) <;> (try (cases e' <;> cases hgg))
+  · rw [ho, ho']
+    refine ⟨?_, by rw [gateSeen_tailObs_none h t _ hc, gateSeen_tailObs_none h t _ hc], ?_⟩
+    · unfold checksVerdict tailObs
+      cases tailPass t
+      · rfl
+      · cases t.binder with
+        | none => rfl
+        | some r => cases r <;> rfl
+    · intro hb; rw [hb]; exact ⟨rfl, rfl, Iff.rfl⟩
+  · cases hgg
+    rw [ho, ho']
+    refine ⟨?_, by rw [gateSeen_tailObs_some, gateSeen_tailObs_some], ?_⟩
+    · unfold checksVerdict tailObs
+      cases tailPass t
+      · rfl
+      · cases t.binder with
+        | none => rfl
+        | some r => cases r <;> rfl
+    · intro hb; rw [hb]; exact ⟨rfl, rfl, Iff.rfl⟩
+  · rw [ho, ho']
+    have : e = e' := by cases e <;> cases e' <;> first | rfl | cases hgg
+    subst this
+    refine ⟨rfl, by rw [gateSeen_refused, gateSeen_refused], ?_⟩
+    intro _; exact ⟨rfl, rfl, by simp⟩
+
+
+/-- "The binder runs iff no check failed": the binder handed to `BindValidRequest` is called exactly
+when there is one, the content-type gate let the request through (or did not apply) and the
+response-format check did (no produces list, or the negotiation found a format). -/
+theorem binder_runs_iff (pmt : Pmt) (api : Api) (h : ReqHead) (t : TailIn) :
+    (typedFull pmt api h t).binderRan = true ↔
+      t.binder.isSome = true ∧ handlerRan (gateTyped pmt api h) = true ∧
+        (t.produces = [] ∨ noFormat t.specs t.produces = false) := by
+  have hob : (typedFull pmt api h t).binderRan = (obsOfFull (typedFull pmt api h t)).binderRan := rfl
+  have htp : (t.produces = [] ∨ noFormat t.specs t.produces = false) ↔ tailPass t = true := by
+    unfold tailPass; cases t.produces <;> simp
+  rw [hob, htp]
+  rcases typedFull_obs pmt api h t with ⟨_, hg, ho⟩ | ⟨_, k, hg, ho⟩ | ⟨_, e, hg, ho⟩ <;> rw [ho, hg]
+  · unfold tailObs
+    cases tailPass t <;> (cases t.binder with
+      | none => simp [handlerRan]
+      | some r => cases r <;> simp [handlerRan])
+  · unfold tailObs
+    cases tailPass t <;> (cases t.binder with
+      | none => simp [handlerRan]
+      | some r => cases r <;> simp [handlerRan])
+  · cases e <;> simp [GateOut.ofErr, handlerRan]
+
+/-- 406 characterised: `BindValidRequest` answers 406 (an error of its own, not the binder's)
+exactly when the gate let the request through, the route declares types, and the negotiation over
+them with the default `""` yields nothing. The request body plays no part. -/
+theorem e406_iff (pmt : Pmt) (api : Api) (h : ReqHead) (t : TailIn) :
+    ((obsOfFull (typedFull pmt api h t)).codes = [406] ∧ (obsOfFull (typedFull pmt api h t)).asIs = false) ↔
+      handlerRan (gateTyped pmt api h) = true ∧ t.produces ≠ [] ∧ noFormat t.specs t.produces = true := by
+  have htp : (t.produces ≠ [] ∧ noFormat t.specs t.produces = true) ↔ tailPass t = false := by
+    unfold tailPass; cases t.produces <;> simp
+  rw [htp]
+  rcases typedFull_obs pmt api h t with ⟨_, hg, ho⟩ | ⟨_, k, hg, ho⟩ | ⟨_, e, hg, ho⟩ <;> rw [ho, hg]
+  · unfold tailObs
+    cases tailPass t <;> (cases t.binder with
+      | none => simp [handlerRan]
+      | some r => cases r <;> simp [handlerRan])
+  · unfold tailObs
+    cases tailPass t <;> (cases t.binder with
+      | none => simp [handlerRan]
+      | some r => cases r <;> simp [handlerRan])
+  · cases e <;> simp [GateOut.ofErr, handlerRan, Err.code]
+
+/-- … which, for declared types without an empty entry, says: the Accept header admits none of the
+types the operation declares (C07's statement about the API handler). -/
+theorem e406_iff_admits_none (pmt : Pmt) (api : Api) (h : ReqHead) (t : TailIn)
+    (declared : List Bytes) (hmem : ∀ x, x ∈ t.produces ↔ x ∈ declared) (hnn : ([] : Bytes) ∉ t.produces) :
+    ((obsOfFull (typedFull pmt api h t)).codes = [406] ∧ (obsOfFull (typedFull pmt api h t)).asIs = false) ↔
+      handlerRan (gateTyped pmt api h) = true ∧ declared ≠ [] ∧ acceptAdmits t.specs declared = false := by
+  rw [e406_iff]
+  have h1 := tailPass_eq_admits t declared hmem hnn
+  have h2 : (t.produces ≠ [] ∧ noFormat t.specs t.produces = true) ↔ tailPass t = false := by
+    unfold tailPass; cases t.produces <;> simp
+  have h3 : (declared ≠ [] ∧ acceptAdmits t.specs declared = false) ↔
+      (declared.isEmpty || acceptAdmits t.specs declared) = false := by
+    cases declared <;> simp
+  rw [h2, h3, h1]
+
+/-- Error order and shape (generated entry point): the answer is nil, the binder's own error, or ONE
+error of the checks — 400/415/500 from the gate, else 406. -/
+theorem typed_answer_shape (pmt : Pmt) (api : Api) (h : ReqHead) (t : TailIn) :
+    ((obsOfFull (typedFull pmt api h t)).asIs = false ∧
+      ((obsOfFull (typedFull pmt api h t)).codes = [] ∨ (obsOfFull (typedFull pmt api h t)).codes = [400] ∨
+       (obsOfFull (typedFull pmt api h t)).codes = [415] ∨ (obsOfFull (typedFull pmt api h t)).codes = [500] ∨
+       (obsOfFull (typedFull pmt api h t)).codes = [406])) ∨
+    (∃ c, t.binder = some (.fail c) ∧ (obsOfFull (typedFull pmt api h t)).asIs = true ∧
+      (obsOfFull (typedFull pmt api h t)).codes = [c] ∧ (obsOfFull (typedFull pmt api h t)).binderRan = true) := by
+  rcases typedFull_obs pmt api h t with ⟨_, _, ho⟩ | ⟨_, k, _, ho⟩ | ⟨_, e, _, ho⟩ <;> rw [ho]
+  · unfold tailObs
+    cases tailPass t <;> (cases t.binder with
+      | none => simp
+      | some r => cases r <;> simp)
+  · unfold tailObs
+    cases tailPass t <;> (cases t.binder with
+      | none => simp
+      | some r => cases r <;> simp)
+  · cases e <;> simp [Err.code]
+
+/-- Error order (reflective entry point): the errors of the gate come first and 406 stands alone —
+it is only ever the sole error. -/
+theorem untyped_406_stands_alone {pmt : Pmt} (hne : ∀ x t, pmt x = some t → t ≠ []) (api : Api) (h : ReqHead)
+    (t : TailIn) (h406 : 406 ∈ (obsOfFull (untypedFull pmt api h t)).codes) :
+    (obsOfFull (untypedFull pmt api h t)).codes = [406] ∧
+      handlerRan (gateUntyped pmt api h) = true ∧ (obsOfFull (untypedFull pmt api h t)).binderRan = false := by
+  rcases untypedFull_obs pmt api h t hne with ⟨_, hg, ho⟩ | ⟨_, k, hg, ho⟩ | ⟨_, e, es, sel, hg, ho⟩ <;>
+    rw [ho] at h406 ⊢ <;> rw [hg]
+  · unfold tailObs at h406 ⊢
+    cases htp : tailPass t <;> simp [htp, handlerRan] at h406 ⊢
+  · unfold tailObs at h406 ⊢
+    cases htp : tailPass t <;> simp [htp, handlerRan] at h406 ⊢
+  · exfalso
+    simp only [List.mem_cons, List.mem_map] at h406
+    rcases h406 with h406 | ⟨e', _, h406⟩
+    · cases e <;> simp [Err.code] at h406
+    · cases e' <;> simp [Err.code] at h406
+
+/-- The binder's own error is returned AS IS: `BindValidRequest` returns the very value of a failing
+binder exactly when that binder ran; it is never folded into the composite of the checks. -/
+theorem binder_error_as_is (pmt : Pmt) (api : Api) (h : ReqHead) (t : TailIn) (c : Nat) :
+    (typedFull pmt api h t).ret = .asIs c ↔
+      t.binder = some (.fail c) ∧ (typedFull pmt api h t).binderRan = true := by
+  unfold typedFull
+  generalize tRespCheck (rawErrs (typedRaw pmt api h)) t = res
+  generalize rawSel (typedRaw pmt api h) = sel
+  cases res with
+  | nil =>
+    cases t.binder with
+    | none => simp [tBind]
+    | some r => cases r <;> simp [tBind]
+  | cons e es =>
+    cases t.binder with
+    | none => simp [tBind]
+    | some r => cases r <;> simp [tBind]
+
+/-- A failing binder that runs determines the answer; one that does not run leaves no trace. -/
+theorem failing_binder_answer (pmt : Pmt) (api : Api) (h : ReqHead) (t : TailIn) (c : Nat)
+    (hb : t.binder = some (.fail c)) :
+    ((typedFull pmt api h t).binderRan = true → (typedFull pmt api h t).ret = .asIs c) ∧
+    ((typedFull pmt api h t).binderRan = false →
+      typedFull pmt api h t = typedFull pmt api h { t with binder := none }) := by
+  have hsame : ∀ res, tRespCheck res { t with binder := none } = tRespCheck res t := fun _ => rfl
+  unfold typedFull
+  rw [hsame, hb]
+  generalize tRespCheck (rawErrs (typedRaw pmt api h)) t = res
+  generalize rawSel (typedRaw pmt api h) = sel
+  cases res <;> simp [tBind]
+
+/-! ### F06b — what the tail did before the repair -/
+
+/-- `requestContentType` of the unrepaired tail: the request's media type, set only when the body
+was admitted and its consumer found -/
+def tRct (pmt : Pmt) (api : Api) (h : ReqHead) : Bytes :=
+  if hasBody h then
+    match runtimeContentType pmt h with
+    | .ok ct => if (tStep pmt api ct).errs.isEmpty then ct else []
+    | .err => []
+  else []
+
+/-- The class of F06b: inside it the unrepaired tail let the request through where the reflective
+entry point (and the repaired tail) answers 406 … -/
+theorem old_tail_passes_in_class (t : TailIn) (rct : Bytes) (hr : rct ≠ []) (hp : t.produces ≠ [])
+    (hs : t.specs ≠ []) (hc : C07.candidates t.specs t.produces = []) :
+    tRespCheckOld [] rct t = [] ∧ tRespCheck [] t = [.notAcceptable] ∧ uRespCheck [] t = [.notAcceptable] := by
+  have hneg : ∀ d, C07.negotiateContentType t.specs t.produces d = d := by
+    intro d
+    rw [C07.negotiate_eq_spec]
+    unfold C07.specChoice
+    cases hpp : t.produces with
+    | nil => exact absurd hpp hp
+    | cons o os =>
+      have : t.specs.isEmpty = false := by cases hss : t.specs with
+        | nil => exact absurd hss hs
+        | cons a b => rfl
+      simp only [this, Bool.false_eq_true, ↓reduceIte]
+      rw [← hpp, hc]
+      rfl
+  have hpe : t.produces.isEmpty = false := by
+    cases hpp : t.produces with
+    | nil => exact absurd hpp hp
+    | cons a b => rfl
+  have hre : rct.isEmpty = false := by
+    cases rct with
+    | nil => exact absurd rfl hr
+    | cons a b => rfl
+  refine ⟨?_, ?_, ?_⟩
+  · simp [tRespCheckOld, hneg, hpe, hre]
+  · simp [tRespCheck, noFormat, hneg, hpe]
+  · simp [uRespCheck, noFormat, hneg, hpe]
+
+/-- … and outside it the unrepaired tail and the repaired one are the same function: F06b is exactly "an admitted body (`rct ≠ ""`), declared types, an Accept header
+with ranges, none of which admits a declared type". -/
+theorem old_tail_same_outside_class (t : TailIn) (rct : Bytes)
+    (hout : ¬ (rct ≠ [] ∧ t.produces ≠ [] ∧ t.specs ≠ [] ∧ C07.candidates t.specs t.produces = [])) :
+    tRespCheckOld [] rct t = tRespCheck [] t := by
+  unfold tRespCheckOld tRespCheck noFormat
+  cases hpp : t.produces with
+  | nil =>
+    cases rct <;> simp [C07.negotiateContentType, starSlashStar]
+  | cons o os =>
+    simp only [List.isEmpty_nil, List.isEmpty_cons, Bool.false_and, Bool.false_eq_true, ↓reduceIte,
+      Bool.not_false, Bool.and_self]
+    by_cases hr : rct = []
+    · rw [hr]
+    · -- the negotiation does not fall back on the default
+      have hnd : ∀ d, C07.negotiateContentType t.specs (o :: os) d =
+          C07.negotiateContentType t.specs (o :: os) [] := by
+        intro d
+        rw [C07.negotiate_eq_spec, C07.negotiate_eq_spec]
+        unfold C07.specChoice
+        simp only
+        split
+        · rfl
+        · rename_i hse
+          cases hm : C07.firstMax (C07.candidates t.specs (o :: os)) with
+          | some c => rfl
+          | none =>
+            exfalso
+            apply hout
+            refine ⟨hr, by rw [hpp]; simp, ?_, by rw [hpp]; exact firstMax_eq_none.mp hm⟩
+            intro e; rw [e] at hse; simp at hse
+      rw [hnd rct]
+
+/-- `requestContentType` was set exactly for a body the gate admitted and found a consumer for. -/
+theorem tRct_ne_nil_iff {pmt : Pmt} (hne : ∀ x t, pmt x = some t → t ≠ []) (api : Api) (h : ReqHead) :
+    tRct pmt api h ≠ [] ↔ ∃ k, gateTyped pmt api h = .consumer k := by
+  unfold tRct gateTyped typedRaw
+  by_cases hb : hasBody h
+  · simp only [hb, ↓reduceIte, runtimeContentType_eq]
+    cases hp : pmt (effCT h) with
+    | none => simp [tAfterCT, observe, GateOut.ofErr]
+    | some ct =>
+      have hct := hne _ _ hp
+      simp only [tAfterCT, tStep]
+      by_cases hv : validateContentType pmt (routeConsumes api) ct
+      · simp only [hv, ↓reduceIte]
+        cases hc : routeConsumer api ct with
+        | none => simp [observe, GateOut.ofErr]
+        | some k => simp [observe, hct]
+      · simp [hv, observe, GateOut.ofErr]
+  · simp [hb, observe]
+
+/-! ### non-vacuity of the statements about the whole functions -/
+
+def bImagePng : Bytes := [105, 109, 97, 103, 101, 47, 112, 110, 103]      -- "image/png"
+def bStarStar : Bytes := [42, 47, 42]                                      -- "*/*"
+/-- `Accept: image/png` -/
+def exAccPng : List C07.Spec := [⟨bImagePng, ⟨1, 0, 0⟩⟩]
+/-- `Accept: image/png, application/json;q=0, */*;q=0.5` -/
+def exAccMixed : List C07.Spec := [⟨bImagePng, ⟨1, 0, 0⟩⟩, ⟨bJson, ⟨0, 0, 0⟩⟩, ⟨bStarStar, ⟨0, 5, 1⟩⟩]
+/-- `Accept: application/json;q=0` -/
+def exAccQ0 : List C07.Spec := [⟨bJson, ⟨0, 0, 0⟩⟩]
+
+-- the F06b witness: an admitted JSON body (consumer 0), `Accept: image/png`, produces [application/json]:
+-- both entry points answer 406, the binder does not run, nothing is decoded (before the repair the
+-- generated entry point let it through: `old_tail_passes_in_class` applies, see below)
+example : obsOfFull (typedFull tablePmt exApi exJsonReq ⟨exAccPng, [bJson], some .ok⟩) = ⟨[406], false, false, some 0, none⟩ ∧
+    obsOfFull (untypedFull tablePmt exApi exJsonReq ⟨exAccPng, [bJson], some .ok⟩) = ⟨[406], false, false, some 0, none⟩ := by
+  decide
+example : tRct tablePmt exApi exJsonReq = bJson ∧ exAccPng ≠ [] ∧ C07.candidates exAccPng [bJson] = [] ∧
+    tRespCheckOld [] (tRct tablePmt exApi exJsonReq) ⟨exAccPng, [bJson], some .ok⟩ = [] := by decide
+-- the hypotheses of `typedFull_meets_spec` / `e406_iff_admits_none` are met, and the header admits nothing
+example : acceptAdmits exAccPng (declaredTypes [] bJson) = false ∧ ([] : Bytes) ∉ routeProduces [] bJson ∧
+    WFp [] bJson = true ∧ WFp [bTextPlain] bJson = true := by decide
+-- a q=0 range never admits; a `*/*` range with q > 0 does: the binder runs and consumer 0 decodes
+example : acceptAdmits exAccQ0 [bJson] = false ∧ acceptAdmits exAccMixed [bJson] = true := by decide
+example : obsOfFull (typedFull tablePmt exApi exJsonReq ⟨exAccMixed, [bJson], some .ok⟩) = ⟨[], false, true, some 0, some 0⟩ := by
+  decide
+-- the failing binder's error comes back as it is (422), after the checks passed
+example : typedFull tablePmt exApi exJsonReq ⟨exAccMixed, [bJson], some (.fail 422)⟩ = ⟨.asIs 422, true, some 0⟩ := by decide
+-- … and is never reached when a check fails: 415 (gate) and 406 (format) win over it, a nil binder never runs
+example : typedFull tablePmt exWildApi exJsonReq ⟨exAccMixed, [bJson], some (.fail 422)⟩ =
+    ⟨.composite [.gate .unsupported], false, none⟩ := by decide
+example : typedFull tablePmt exApi exJsonReq ⟨exAccQ0, [bJson], some (.fail 422)⟩ =
+    ⟨.composite [.notAcceptable], false, some 0⟩ := by decide
+example : typedFull tablePmt exApi exJsonReq ⟨exAccMixed, [bJson], none⟩ = ⟨.nil, false, some 0⟩ := by decide
+-- an operation that declares nothing is not subjected to the check, with or without a body
+example : typedFull tablePmt exApi exJsonReq ⟨exAccPng, [], some .ok⟩ = ⟨.nil, true, some 0⟩ ∧
+    typedFull tablePmt exApi { exJsonReq with contentLength := 0, clHeader := [48] } ⟨exAccPng, [], some .ok⟩ = ⟨.nil, true, none⟩ := by
+  decide
+-- the reflective entry point reports the gate's errors in order, 415 before 500, and no 406 besides
+example : (untypedFull tablePmt ⟨[bTextPlain], [], []⟩ exJsonReq ⟨exAccPng, [bJson], some .ok⟩).ret =
+    .composite [.gate .unsupported, .gate .noConsumer] := by decide
+-- the Spec for the whole function is not vacuous: on the F06b witness it rejects "let through"
+example : SpecFull tablePmt exApi exJsonReq exAccPng [bJson] (some .ok) ⟨[], false, true, some 0, some 0⟩ = false ∧
+    SpecFull tablePmt exApi exJsonReq exAccPng [bJson] (some .ok) ⟨[406], false, false, some 0, none⟩ = true ∧
+    SpecFull tablePmt exApi exJsonReq exAccPng [bJson] (some .ok) ⟨[406], false, true, some 0, none⟩ = false ∧
+    SpecFull tablePmt exApi exJsonReq exAccMixed [bJson] (some (.fail 422)) ⟨[422], false, true, some 0, none⟩ = false := by
   decide
 
 end RtVerif.C06
